@@ -35,7 +35,7 @@ ASSUMPTIONS = ['which operators are streaming is taken from the property text vi
                'two rows of look-ahead are legitimate (addfieldusingcontext, selectusingcontext, look overflow probe)']
 KS = [0, 1, 2, 5, 17]
 SHORT, LONG = 100, 10000
-REQUIRED = ['extractor-over-compressed-source', 'lazyarg-judged', 'construction-judged', 'prefix-judged', 'extractor-judged', 'composition-depth>=3', 'vis-judged', 'header-readers-judged']
+REQUIRED = ['dbextractor-judged', 'construction-over-table-objects', 'extractor-over-compressed-source', 'lazyarg-judged', 'construction-judged', 'prefix-judged', 'extractor-judged', 'composition-depth>=3', 'vis-judged', 'header-readers-judged']
 
 _files = {}
 
@@ -297,6 +297,7 @@ def cases(ctx):
     for e in C.ENTRIES.values():
         if e.kind in ('view', 'items', 'multi', 'dictviews') and e.name not in NOT_CONSTRUCTORS:
             yield {'clause': 'construction', 'op': e.name}
+            yield {'clause': 'construction', 'op': e.name, 'wrapped': True}
     for e in C.ENTRIES.values():
         if e.stream is not None and e.kind in ('view', 'items'):
             for k in KS:
@@ -305,6 +306,10 @@ def cases(ctx):
         yield {'clause': 'extractor', 'op': name, 'k': 0}
         for k in (1, 5, 17):
             yield {'clause': 'extractor', 'op': name, 'k': k}
+    for handle in ('connection', 'cursor', 'cursor-factory'):
+        for k in (0, 1, 5, 17):
+            yield {'clause': 'dbextractor', 'op': 'fromdb(%s)' % handle, 'handle': handle, 'k': k}
+        yield {'clause': 'dbextractor', 'op': 'fromdb(%s)+convertall+head' % handle, 'handle': handle, 'k': 3, 'pipeline': True}
     for name in VIS:
         yield {'clause': 'vis', 'op': name}
     for name in LAZYARG:
@@ -352,6 +357,8 @@ def judge(case, ctx):
         return _judge_extractor(case, ctx)
     if clause == 'lazyarg':
         return _judge_lazyarg(case, ctx)
+    if clause == 'dbextractor':
+        return _judge_dbextractor(case, ctx)
     return _judge_vis(case, ctx)
 
 
@@ -360,7 +367,13 @@ def _judge_construction(case, ctx):
     srcs = [_src(SHORT)]
     if e.arity == 2:
         srcs.append(probes.CountingSource(C.second_for(e, 3)))
-    obj = e.build(*srcs)
+    if case.get('wrapped'):
+        # the inputs are petl Table objects (whose repr() / str() / len() evaluate them): constructing a pipeline over them reads no
+        # data row either
+        ctx.seen('construction-over-table-objects')
+        obj = e.build(*[petl.wrap(s_) for s_ in srcs])
+    else:
+        obj = e.build(*srcs)
     ctx.seen('construction-judged')
     out = []
     for i, s in enumerate(srcs):
@@ -436,6 +449,50 @@ def _judge_lazyarg(case, ctx):
     if not got:
         return {'kind': 'prefix-shorter-than-on-list-input', 'got': len(got)}
     del view
+    return None
+
+
+def _judge_dbextractor(case, ctx):
+    """fromdb over every handle kind that lets the harness count result rows as the database steps them (a user-defined SQL
+    function evaluated once per stepped row)"""
+    import sqlite3
+    k = case['k']
+    steps = {}
+    for n in (200, 20000):
+        conn = sqlite3.connect(':memory:')
+        conn.execute('CREATE TABLE t (a, b)')
+        conn.executemany('INSERT INTO t VALUES (?, ?)', ((i, 'v%d' % i) for i in range(n)))
+        conn.commit()
+        counter = [0]
+
+        def tick(x, counter=counter):
+            counter[0] += 1
+            return x
+        conn.create_function('tick', 1, tick)
+        q = 'SELECT tick(a) AS a, b FROM t'
+        h = {'connection': lambda: conn, 'cursor': lambda: conn.cursor(), 'cursor-factory': lambda: (lambda: conn.cursor())}[case['handle']]()
+        view = petl.fromdb(h, q)
+        if case.get('pipeline'):
+            view = petl.head(petl.convertall(view, str), 50)
+        if counter[0] and not case.get('pipeline'):
+            conn.close()
+            return {'kind': 'construction-read-data-rows', 'stepped': counter[0]}
+        base = counter[0]         # convertall reads the header at construction: the statement may have been stepped once
+        if k:
+            got = _take(view, k)
+            if len(got) != k + 1:
+                conn.close()
+                return {'kind': 'extractor-returned-too-few-rows', 'got': len(got)}
+        steps[n] = (base, counter[0])
+        del view
+        conn.close()
+    ctx.seen('dbextractor-judged')
+    if k:
+        ctx.mark_nontrivial()
+    if steps[200] != steps[20000]:
+        return {'kind': 'rows-stepped-depend-on-the-size-of-the-result', 'k': k, 'stepped': steps}
+    if steps[200][1] > 2 * (k + 2):
+        return {'kind': 'stepped-more-than-k-plus-constant', 'k': k, 'stepped': steps}
     return None
 
 
